@@ -35,6 +35,10 @@ HARNESS = _harness_dir()
 OUTROOT = VERIF if REPO == "/repo" else os.path.join(TMP, "alt-" + hashlib.sha1(REPO.encode()).hexdigest()[:10])
 JUDGE = os.path.join(LEAN, ".lake", "build", "bin", "hecs_judge")
 ALLOWED_AXIOMS = {"propext", "Classical.choice", "Quot.sound"}
+# a harness job or a replay that does not come back is reported, not waited for
+JOB_TIMEOUT = int(os.environ.get("VERIF_JOB_TIMEOUT", "5400"))
+REPLAY_TIMEOUT = int(os.environ.get("VERIF_REPLAY_TIMEOUT", "180"))
+SHRINK_SECONDS = int(os.environ.get("VERIF_SHRINK_SECONDS", "900"))
 MIRI_ENV = {"RUSTFLAGS": "--cfg hecs_verif", "CARGO_NET_OFFLINE": "true",
             "MIRIFLAGS": "-Zmiri-disable-isolation -Zmiri-ignore-leaks -Zmiri-permissive-provenance",
             "CARGO_TARGET_DIR": os.path.join(HARNESS, "target", "miri")}
@@ -326,7 +330,12 @@ def replay(exe, engine, header, ops, workdir, tag="r"):
         f.write(header + "\n" + "\n".join(ops) + "\n")
     tr = os.path.join(workdir, f"{tag}.trace")
     with open(tr, "w") as fo:
-        p = subprocess.run([exe, engine, "replay", opsf], stdout=fo, stderr=subprocess.PIPE, text=True)
+        try:
+            p = subprocess.run([exe, engine, "replay", opsf], stdout=fo, stderr=subprocess.PIPE, text=True,
+                               timeout=REPLAY_TIMEOUT)
+        except subprocess.TimeoutExpired:
+            # a replay that does not come back is a failure of its own kind (non-termination inside hecs)
+            return "CRASH", {"rc": -999, "stderr": f"no result within {REPLAY_TIMEOUT}s (non-termination?)", "hist": None}
     if p.returncode == 3:
         return "HARNESS", {"stderr": p.stderr[-2000:]}
     crashed = p.returncode != 0
@@ -349,11 +358,12 @@ def shrink(exe, engine, header, ops, want, workdir, budget=400):
     cur = list(ops)
     n = 2
     tries = 0
-    while len(cur) >= 2 and tries < budget:
+    t_end = time.time() + SHRINK_SECONDS
+    while len(cur) >= 2 and tries < budget and time.time() < t_end:
         chunk = max(1, len(cur) // n)
         reduced = False
         i = 0
-        while i < len(cur) and tries < budget:
+        while i < len(cur) and tries < budget and time.time() < t_end:
             cand = cur[:i] + cur[i + chunk:]
             tries += 1
             st, _ = replay(exe, engine, header, cand, workdir, "s")
@@ -396,8 +406,13 @@ def run_job(exe, job, workdir):
                "miri": "ub" if ub else ("ok" if p.returncode == 0 else "unavailable"),
                "miri_message": (ub.group(0) + " @ " + " | ".join([x for x in re.findall(r"--> ([^\n]*)", p.stderr) if "/rustlib/" not in x][:2])) if ub else p.stderr[-400:]}
     else:
-        p = subprocess.run(cmd, stdout=subprocess.PIPE, stderr=subprocess.PIPE, text=True)
-        res = {"job": job, "rc": p.returncode, "stderr": p.stderr[-3000:], "workdir": workdir}
+        try:
+            p = subprocess.run(cmd, stdout=subprocess.PIPE, stderr=subprocess.PIPE, text=True, timeout=JOB_TIMEOUT)
+            res = {"job": job, "rc": p.returncode, "stderr": p.stderr[-3000:], "workdir": workdir}
+        except subprocess.TimeoutExpired:
+            # handled like a crash: the last history in ops.txt is replayed (with its own timeout) and reported
+            res = {"job": job, "rc": -999, "stderr": f"harness job produced no result within {JOB_TIMEOUT}s (non-termination?)",
+                   "workdir": workdir}
     tr = os.path.join(workdir, "trace.txt")
     if not os.path.exists(tr):
         res["histories"] = []
